@@ -589,13 +589,15 @@ class Runner:
     def path(self, ctx):
         job = self.job
         S.NP.fresh_empty = job.fresh_empty
-        self.inputs = job.build(ctx)
+        live = job.build(ctx)
+        # the code under test may modify its arguments: witnesses are taken from a pristine copy (same terms)
+        self.inputs = _copy_inputs(live)
         A = ASym(ctx, self)
         exc = None
         try:
             with warnings.catch_warnings():
                 warnings.simplefilter('ignore')
-                job.body(A, self.inputs)
+                job.body(A, live)
         except Exception as ex:
             exc = ex
         return A, exc
